@@ -21,12 +21,15 @@ type ownRec struct {
 	threads map[string]bool
 	wrote   bool
 	bare    map[string]bool // "site thread r|w" of accesses made with no lock at all
+	typ     string
+	obj     any // keeps the object alive, so that its address is not reused for another object while tracking is on
 }
 
 var own struct { //nolint:gochecknoglobals
 	on       atomic.Bool
 	mu       sync.Mutex
 	typ      string
+	extra    map[string]bool // further tracked types, with an exclusive (initialisation) state
 	loopSite string
 	epoch    int
 	recs     map[string]*ownRec
@@ -39,9 +42,13 @@ func OwnOn() bool { return own.on.Load() }
 
 // OwnStart begins the concurrent phase: fields of values whose dynamic type prints as typ are tracked;
 // goroutines spawned at loopSite ("file.go:line") are task-loop goroutines.
-func OwnStart(typ, loopSite string) {
+func OwnStart(typ, loopSite string, extraTypes ...string) {
 	own.mu.Lock()
 	own.typ, own.loopSite, own.epoch = typ, loopSite, 0
+	own.extra = map[string]bool{}
+	for _, t := range extraTypes {
+		own.extra[t] = true
+	}
 	own.recs = map[string]*ownRec{}
 	own.held = map[int64]map[string]int{}
 	own.accesses = 0
@@ -64,7 +71,7 @@ func OwnStop() (reports []string, accesses int) {
 		}
 		sort.Strings(bare)
 		field := key[strings.Index(key, ".")+1:]
-		reports = append(reports, fmt.Sprintf("field %s of %s is written while shared and no lock is common to its accesses; unprotected: %s", field, own.typ, strings.Join(bare, ", ")))
+		reports = append(reports, fmt.Sprintf("field %s of %s is written while shared and no lock is common to its accesses; unprotected: %s", field, r.typ, strings.Join(bare, ", ")))
 	}
 	sort.Strings(reports)
 	own.recs = nil
@@ -111,7 +118,8 @@ func Access(x any, field, site string, write bool) {
 		return
 	}
 	rt := reflect.TypeOf(x)
-	if rt.String() != own.typ {
+	primary := rt.String() == own.typ
+	if !primary && !own.extra[rt.String()] {
 		return
 	}
 	s := cur
@@ -146,7 +154,7 @@ func Access(x any, field, site string, write bool) {
 	key := fmt.Sprintf("%d:%x.%s", own.epoch, reflect.ValueOf(x).Pointer(), field)
 	r := own.recs[key]
 	if r == nil {
-		r = &ownRec{threads: map[string]bool{}, bare: map[string]bool{}, lockset: locks}
+		r = &ownRec{threads: map[string]bool{}, bare: map[string]bool{}, lockset: locks, typ: rt.String(), obj: x}
 		own.recs[key] = r
 	} else {
 		for id := range r.lockset {
@@ -155,8 +163,14 @@ func Access(x any, field, site string, write bool) {
 			}
 		}
 	}
+	// objects of the extra types are created while tracking is on: what their creator does before a second thread has
+	// seen them is initialisation (Eraser's exclusive state), only writes made once the object is shared count
+	if primary || len(r.threads) > 1 || (len(r.threads) == 1 && !r.threads[name]) {
+		r.wrote = r.wrote || write
+	} else if write {
+		r.lockset = locks // still exclusive: the lockset starts afresh with every write of the owner
+	}
 	r.threads[name] = true
-	r.wrote = r.wrote || write
 	if len(locks) == 0 && len(r.bare) < 12 {
 		rw := "read"
 		if write {
